@@ -106,7 +106,7 @@ def mapper_stand_ins(RM):
             reads = f.read()
         stdout.write("sam-of:")
         stdout.flush()
-        stdout.write(reads + ";end")
+        stdout.write(reads + ("+uf" if "-uf" in command else "") + ";end")
         # the handle was created in the argument list of the call: CPython finalises it as soon as the call returns
         stdout.close()
         return 0
@@ -195,7 +195,7 @@ def make_process(pid, gtf, outdir, clean_start=False, with_mapper_caches=False, 
             res["index_path"] = idx
             with open(args.reference, "r") as f:
                 res["ref_end"] = f.read()
-        elif with_mapper_caches in ("alignment", "alignment2"):
+        elif with_mapper_caches in ("alignment", "alignment2", "alignment-uf"):
             # FASTQ mode: start-up of the run in its folder (what isoquant.check_and_load_args does for every new run), then the real
             # DataSetReadMapper.map_reads with a stand-in for the aligner binary; afterwards the run opens the alignments it was given
             import src.read_mapper as RM
@@ -217,7 +217,8 @@ def make_process(pid, gtf, outdir, clean_start=False, with_mapper_caches=False, 
             mapper_stand_ins(RM)
             args.data_type = "nanopore"
             args.threads = 1
-            args.stranded = "none"
+            args.stranded = "forward" if with_mapper_caches == "alignment-uf" else "none"
+            res["opt"] = "+uf" if args.stranded == "forward" else ""
             if with_mapper_caches == "alignment2":
                 # an experiment with two read files
                 sample.file_list.append([V + "data/reads2.fq"])
@@ -370,6 +371,9 @@ def scenario(name):
     if name == "alignment-two-files-vs-one":
         # run 1 maps an experiment of two read files, run 2 one of them: it may be handed run 1's first alignment while run 1 maps the second
         return [(1, g(1), o(1), False, "alignment2"), (2, g(1), o(2), False, "alignment")], lambda v: base_init(v, cfg_exists=True)
+    if name == "alignment-other-options":
+        # the same reads aligned by two runs with different alignment options (--stranded forward adds -uf)
+        return [(1, g(1), o(1), False, "alignment"), (2, g(1), o(2), False, "alignment-uf")], lambda v: base_init(v, cfg_exists=True)
     if name == "alignment-two-fresh":
         return [(1, g(1), o(1), False, "alignment"), (2, g(1), o(2), False, "alignment")], lambda v: base_init(v, cfg_exists=True)
     if name == "reference-replaced-during-indexing":
@@ -466,10 +470,10 @@ def make_check(specs):
                 if r["index_content"] not in ("idx-of:%s;end" % r["ref_start"], "idx-of:%s;end" % r["ref_end"]):
                     out.append(("foreign-or-partial-index", "process %d loads the index %s whose content is %r, expected the complete index of its "
                                 "reference" % (pid, r["index_path"], r["index_content"])))
-            elif mapper in ("alignment", "alignment2"):
+            elif mapper in ("alignment", "alignment2", "alignment-uf"):
                 if r["bai_content"] != "bai-of:" + r["bam_content"]:
                     out.append(("foreign-or-partial-alignment-index", "process %d opens %s.bai whose content is %r" % (pid, r["bam_path"], r["bai_content"])))
-                if r["bam_content"] not in ("bam-of:%s;end" % r["fq_start"], "bam-of:%s;end" % r["fq_end"]):
+                if r["bam_content"] not in ("bam-of:%s%s;end" % (r["fq_start"], r["opt"]), "bam-of:%s%s;end" % (r["fq_end"], r["opt"])):
                     out.append(("foreign-or-partial-alignment", "process %d reads the alignment %s whose content is %r, expected the complete "
                                 "alignment of its reads" % (pid, r["bam_path"], r["bam_content"])))
             elif mapper == "annotation":
@@ -535,6 +539,7 @@ def run(ctx):
     jobs.append(("index-two-fresh", 2 if quick else 3, 60000 if quick else 400000))
     jobs.append(("clean-start-rerun-vs-cached-alignment", 3 if quick else 4, 60000 if quick else 400000))
     jobs.append(("alignment-two-fresh", 2 if quick else 3, 60000 if quick else 400000))
+    jobs.append(("alignment-other-options", 1 if quick else 2, 60000 if quick else 400000))
     jobs.append(("alignment-two-files-vs-one", 2 if quick else 3, 60000 if quick else 400000))
     jobs.append(("reads-replaced-during-alignment", 1 if quick else 2, 60000 if quick else 400000))
     jobs.append(("star-gtf-two-databases-same-mtime", 2 if quick else 3, 60000 if quick else 400000))
